@@ -170,9 +170,15 @@ def m_put_slice(I, st, t, args, site, depth):
     return [(st, TupleV([]))]
 
 
+def m_bytes_new(I, st, t, args, site, depth):
+    return [(st, ("emptybytes",))]
+
+
 def m_bytes_len(I, st, t, args, site, depth):
     v = deref_arg(I, st, args[0])
     v = tform(v)
+    if v == ("emptybytes",):
+        return [(st, 0)]
     if isinstance(v, tuple) and v and v[0] == "bufslice":
         return [(st, v[3])]
     return [(st, ("len", v))]
@@ -203,5 +209,6 @@ BUF_MODELS.update(
         "bytes::BufMut::put": m_put_slice,
         "bytes::BytesMut::extend_from_slice": m_put_slice,
         "bytes::Bytes::len": m_bytes_len,
+        "bytes::Bytes::new": m_bytes_new,
     }
 )
